@@ -451,6 +451,27 @@ fn apply(ov: &Ov, out: &mut Outcome, op: &OOp, has_upper: bool, lower_has: &dyn 
         }
     };
     let name_of = |i: u8| NAMES[i as usize % NAMES.len()].as_bytes();
+    // A FUSE client walks component by component and resolves symbolic links itself: a path whose
+    // intermediate component is a symlink never reaches the server as such. The reference tree is
+    // driven with path system calls, which WOULD follow it, so such operands are outside the
+    // comparison; the overlay only has to refuse the component-wise walk.
+    let operands: Vec<&Vec<u8>> = match op {
+        OOp::Link(a, b) => vec![a, b],
+        OOp::Getattr(a) | OOp::Read(a) | OOp::Readlink(a) | OOp::Mknod(a) | OOp::Unlink(a) | OOp::Rmdir(a) | OOp::Utimens(a) | OOp::Listxattr(a) => vec![a],
+        OOp::Create(a, _) | OOp::Mkdir(a, _) | OOp::Symlink(a, _) | OOp::Chmod(a, _) | OOp::Truncate(a, _) | OOp::Setxattr(a, _) | OOp::Getxattr(a, _) | OOp::Removexattr(a, _) => vec![a],
+        OOp::Write(a, ..) => vec![a],
+    };
+    for p in operands {
+        for i in 1..p.len() {
+            if matches!(sys::lstat(&refp(&p[..i])), Ok(st) if st.st_mode & libc::S_IFMT == libc::S_IFLNK) {
+                if ov.resolve(p).is_ok() {
+                    out.fail("union/lookup/through-symlink", format!("{} resolves although {} is a symbolic link", pstr(p), pstr(&p[..i])));
+                }
+                out.class("skipped:operand-through-symlink");
+                return (false, false);
+            }
+        }
+    }
     let host_if_upper = |f: &dyn Fn() -> Result<(), i32>| -> Result<(), i32> {
         if has_upper {
             f()
